@@ -37,7 +37,8 @@ Lemma addSimplex_form r fs id attr r' n :
     r_nord r' = (if g then S k else r_nord r2) /\
     r_idx r' = upd_nth k (fun l => l ++ [n]) [] idx_g /\
     r_simp r' = r_simp r2 ++ [(n, (k, length (nth k (upd_nth k (fun l => l ++ [n]) [] idx_g) []) - 1))] /\
-    r_attr r' = r_attr r2 ++ [(n, h)].
+    r_attr r' = r_attr r2 ++ [(n, h)] /\
+    (attr = Some h \/ (attr = None /\ fst h = r_uid r)) /\ r_uid r' = r_uid r.
 Proof.
   unfold addSimplex. intros H. cbv zeta.
   destruct ((length fs - 1 =? 0) && negb (length fs =? 0)) eqn:E0; [discriminate|].
@@ -56,6 +57,10 @@ Proof.
   { destruct attr; simpl; [auto|]. split; [eapply same_obs_trans; [exact Hs1 | apply same_obs_alloc] | exact Hc1]. }
   destruct (match attr with Some h => (r1, h) | None => alloc r1 end) as [r2 h] eqn:Ea. simpl in Hs2.
   destruct Hs2 as [Hs2 Hc2].
+  assert (Hh : attr = Some h \/ (attr = None /\ fst h = r_uid r)).
+  { destruct attr as [h0|]; [injection Ea as _ <-; now left|]. right. split; auto.
+    unfold alloc in Ea. injection Ea as _ <-. simpl. destruct Hs1 as [Hu _]. exact Hu. }
+  assert (Hu2 : r_uid r2 = r_uid r) by (destruct Hs2 as [Hu _]; exact Hu).
   destruct (negb (nodupb fs)); [discriminate|].
   destruct (check_faces r2 (length fs - 1) fs) as [[]|e1] eqn:Ec; [|discriminate].
   assert (Hk0 : length fs - 1 = 0 -> fs = []).
@@ -74,16 +79,16 @@ Proof.
     + destruct (r_nord r2 <? length fs - 1) eqn:E2; [discriminate|].
       apply Nat.leb_le in E1. apply Nat.ltb_ge in E2. split; [lia|].
       destruct (length fs - 1) as [|k'] eqn:Ek; cbn [fst snd] in H.
-      * simpl in H. inversion H; subst. simpl. repeat split; reflexivity.
+      * simpl in H. inversion H; subst. simpl. repeat split; try reflexivity; try exact Hh; try exact Hu2.
       * simpl r_nord in H. rewrite Nat.ltb_irrefl in H.
-        inversion H; subst. simpl. repeat split; reflexivity.
+        inversion H; subst. simpl. repeat split; try reflexivity; try exact Hh; try exact Hu2.
     + apply Nat.leb_gt in E1. split; [lia|].
       destruct (0 <? length fs - 1).
       * destruct (simplexWithFaces r2 fs) as [[sw|]|e2]; try discriminate.
         destruct (length fs - 1) as [|k'] eqn:Ek; cbn [fst snd] in H; destruct (S _ <? _) in H;
-          inversion H; subst; simpl; repeat split; reflexivity.
+          inversion H; subst; simpl; repeat split; try reflexivity; try exact Hh; try exact Hu2.
       * destruct (length fs - 1) as [|k'] eqn:Ek; cbn [fst snd] in H; destruct (S _ <? _) in H;
-          inversion H; subst; simpl; repeat split; reflexivity.
+          inversion H; subst; simpl; repeat split; try reflexivity; try exact Hh; try exact Hu2.
 Qed.
 
 Lemma nth_app_snoc_nil {A} (l : list (list A)) k : nth k (l ++ [[]]) [] = nth k l [].
